@@ -134,6 +134,7 @@ func loadProg(repo string, cfg Config) (*Prog, error) {
 		p.funcs[fn.Pkg.Pkg.Name()+":"+fn.RelString(fn.Pkg.Pkg)] = fn
 	}
 	sort.Slice(p.modFns, func(i, j int) bool { return p.modFns[i].String() < p.modFns[j].String() })
+	computeFieldAliases(p)
 	textEmitters(p) // recognise the capability-with-text wrappers once, for every rule that looks for emissions
 	return p, nil
 }
